@@ -828,9 +828,10 @@ func (vc *VC) evalBinary(st *State, x *ast.BinaryExpr) Val {
 		if x.Op == token.LOR {
 			g = "(not " + l.S + ")"
 		}
-		st.guards = append(st.guards, g)
+		savedGuards := st.guards
+		st.guards = append(append([]string(nil), savedGuards...), g)
 		r := vc.eval(st, x.Y)
-		st.guards = st.guards[:len(st.guards)-1]
+		st.guards = savedGuards
 		if x.Op == token.LAND {
 			return Val{S: fmt.Sprintf("(and %s %s)", l.S, r.S), Ty: l.Ty, Sort: "Bool"}
 		}
